@@ -625,9 +625,20 @@ func c3NilPlaceholder(c *Ctx) {
 		if f == nil || depth > 3 {
 			return false
 		}
-		if f.Parent() != nil {
-			for _, cl := range Calls(f) {
-				if CallBuiltin(cl) == "recover" {
+		for _, cl := range Calls(f) {
+			if CallBuiltin(cl) == "recover" {
+				if f.Parent() != nil {
+					return true
+				}
+				// a named handler: recover() only works when the function is deferred directly
+				sites := sitesOf(f)
+				all := len(sites) > 0
+				for _, s := range sites {
+					if _, isDefer := s.(*ssa.Defer); !isDefer {
+						all = false
+					}
+				}
+				if all {
 					return true
 				}
 			}
